@@ -125,6 +125,8 @@ def run_case(c):
     g = Genuine(w, dict(SPEC, platform=plat.lower()))
     mw.install(w)
     da.getDongle = lambda debug: mw.get_dongle(w)()
+    import ledgerblue.comm
+    ledgerblue.comm.getDongle = da.getDongle
     Platform.set(Platform.LEDGER if plat == "Ledger" else Platform.SGX,
                  {} if plat == "Ledger" else {"sgx_host": "h", "sgx_port": 1})
     d = workdir()
